@@ -164,7 +164,7 @@ impl FileMetadata {
                 smallest = file.smallest_key();
             }
 
-            if file.largest_key() < largest {
+            if file.largest_key().get_user_key() > largest.get_user_key() {
                 largest = file.largest_key()
             }
         }
@@ -201,7 +201,7 @@ impl FileMetadata {
                 smallest = files_key_range.start;
             }
 
-            if files_key_range.end < largest {
+            if files_key_range.end.get_user_key() > largest.get_user_key() {
                 largest = files_key_range.end
             }
         }
